@@ -328,3 +328,12 @@ def r8(ctx):
                     '%s at line %d is called with use_graphemes = %s while the other %d sites of src/dictionary.rs use %s: lengths and distances are measured in '
                     'different units (a cluster of several code points counts once at one site and several times at the other)' % (
                         (t.callee_res() or '').rsplit('::', 2)[-1], t.span['line'], v, len(sites) - 1, major), t.span)
+
+
+@rule('C20', 'R-C20-9', 'prerequisite (the distance get_closest minimises)',
+      'the edit distance recurrence and its normalisation divisor (R-C12-1, R-C12-2 re-evaluated): get_closest returns the entry of minimal '
+      'distance, which is only meaningful when distances() computes the metric')
+def r9(ctx):
+    from rules import c12
+    c12.r1(ctx)
+    c12.r2(ctx)
